@@ -83,8 +83,8 @@ theorem reimpl_fake_ifft_ok : reimpl_fake_ifft.ok = true ∧ reimpl_fake_ifft.in
 /-- `SheppLoganDataset.fft` (repaired: `ifftshift → fft2 → fftshift`, all over axes (1, 2)) -/
 theorem reimpl_shepp_fft_ok : reimpl_shepp_fft.ok = true ∧ reimpl_shepp_fft.inverse = false := by decide
 
-/-- no function of the mechanism keeps state across calls, updates an argument in place, has a mutable default or a
-decorator, or returns early (except `roll_one_dim`'s `if shift == 0: return data`, which the model has) -/
+/-- no function of the mechanism (private helpers included) keeps state across calls, updates an argument in place, reads an
+ambient torch mode (autocast, grad mode, default dtype, backend flags), has a mutable default or a decorator, or returns early (except `roll_one_dim`'s `if shift == 0: return data`, which the model has) -/
 theorem transforms_pure : fn_facts.all FnFacts.pure = true := by decide
 theorem transforms_all_listed :
     fn_facts.map (·.fn) = [.fft2, .ifft2, .roll, .rollOneDim, .fftshift, .ifftshift, .verifyDtype, .viewAsComplex, .viewAsReal] := by
